@@ -362,5 +362,5 @@ def plan(tier, seed, switches):
     if tier == "quick":
         return [("campaign", [dict(seed=seed * 100 + k, n=60, switches=switches) for k in range(6)]),
                 ("campaign_cli", [dict(seed=seed * 100 + 50 + k, n=120, switches=switches) for k in range(2)])]
-    return [("campaign", [dict(seed=seed * 1000 + k, n=700, switches=switches, all_combos=True) for k in range(12)]),
+    return [("campaign", [dict(seed=seed * 1000 + k, n=350, switches=switches, all_combos=True) for k in range(12)]),
             ("campaign_cli", [dict(seed=seed * 1000 + 50 + k, n=2500, switches=switches) for k in range(4)])]
